@@ -1,0 +1,1 @@
+//! Hooks for property C16 (empty unless needed).
